@@ -22,6 +22,39 @@ ASSUMPTIONS = [
 TRUSTED = ["coq/Model/Lexer.v", "coq/Model/Ifdef.v", "coq/Model/Include.v"]
 
 
+def include_chain_oracle(lengths):
+    """A chain of files each including the next (no cycle), of any length, is parsed or refused with a diagnostic: never
+    an internal error (D56: about 400 files ended in a RecursionError traceback)."""
+    import shutil
+    import tempfile
+    out = []
+    for n in lengths:
+        root = tempfile.mkdtemp(prefix="hera_chain_")
+        try:
+            for i in range(n):
+                open(os.path.join(root, "f%d.hera" % i), "w").write('SET(R1, %d)\n#include "f%d.hera"\n' % (i % 100, i + 1))
+            open(os.path.join(root, "f%d.hera" % n), "w").write("SET(R2, 2)\n")
+            mp = os.path.join(root, "f0.hera")
+            r = fc.front_end(open(mp).read(), "", budget=60.0, path=mp)
+            if r[0] != "ok":
+                out.append({"what": "front end %s on a chain of %d files each including the next"
+                                    % ("did not terminate" if r[0] == "hang" else "raised " + r[1][:120], n), "chain_length": n})
+            elif n <= 50 and r[1]:
+                out.append({"what": "a chain of %d includes is refused: %r" % (n, r[1]), "chain_length": n})
+        finally:
+            shutil.rmtree(root, ignore_errors=True)
+    return out
+
+
+def known_replays(ctx, findings):
+    out = []
+    for e in findings:
+        if e["id"] == "D56":
+            p = include_chain_oracle([e["chain_length"]])
+            out.append((e, bool(p), p[0]["what"] if p else None))
+    return out
+
+
 def correspondence(ctx, model_available=True):
     quick = ctx.tier == "quick"
     rng = ctx.rng
@@ -45,6 +78,8 @@ def correspondence(ctx, model_available=True):
                 spec_failures.append({"what": "front end (mode %r) %s" % (mode, "did not terminate" if r[0] == "hang" else "raised " + r[1]),
                                       "text": t})
                 break
+    spec_failures += include_chain_oracle([20, 400, 1500] if quick else [5, 50, 200, 400, 900, 1500, 5000])
+    surv["include_chains"] = 3 if quick else 7
     # programs that fill the 16-bit address space exactly (or miss by one), with the label after the last instruction
     # in use: slow to parse, so one size in the quick tier (seed C07c)
     for total in ([65536] if quick else [65535, 65536, 65537]):
@@ -63,7 +98,7 @@ def correspondence(ctx, model_available=True):
                 "texts built from snippets, random characters (controls and NUL included) and truncations; survival: "
                 "random / snippet / operation-name x operand-kind x arity texts, mutated and truncated programs, stray "
                 "directives and includes through parse + check in run, debug, assemble and preprocess mode under a time "
-                "budget",
+                "budget; symbols defined through one another in a ring; chains of 20..5000 files each including the next",
         "distribution": {"lexer": {k: v for k, v in lres.items() if k not in ("disagreements", "spec_failures")},
                          "survival": surv},
         "samples": [{"text": texts[len(lc.SNIPPETS)]}],
